@@ -406,10 +406,12 @@ pub enum Outcome {
     Done(Obs, Terminal),
     /// a premature advance attempt (correctly) ended the history
     Premature(&'static str),
-    /// a followed flow whose request went out without the `Expect` header of the previous request: which request-specific
-    /// headers other than the listed ones travel with a redirect is not stated (DESIGN 5.3), and the rest of this exchange
-    /// was specified for a request with the header - nothing further is compared
-    FollowedWithoutInheritedExpect,
+    /// The exchange left the specified course at a point the statements leave open; nothing further is compared. Two cases:
+    /// a followed flow whose request went out without the `Expect` header of the previous request (which request-specific
+    /// headers other than the listed ones travel with a redirect is not stated, DESIGN 5.3); a `Content-Length: 0` request with
+    /// `Expect: 100-continue` whose flow has no body state and therefore never awaits (whether a body of zero bytes is "due" is
+    /// not stated).
+    NotCompared(&'static str),
 }
 
 fn v(s: impl Into<String>) -> String {
@@ -532,7 +534,7 @@ pub fn run_exchange(spec: &ExchangeSpec, start: Option<Flow<(), Prepare>>, strea
             if matches!(next, SendRequestResult::Await100(_)) {
                 return Err(v("Await100 entered although the request on the wire carries no Expect: 100-continue"));
             }
-            return Ok(Outcome::FollowedWithoutInheritedExpect);
+            return Ok(Outcome::NotCompared("followed_request_without_the_inherited_expect"));
         }
     }
 
@@ -540,10 +542,19 @@ pub fn run_exchange(spec: &ExchangeSpec, start: Option<Flow<(), Prepare>>, strea
     let mut consumed = 0usize; // offset into `stream`
     let mut req_wire: Vec<u8> = Vec::new();
     let mut body_sent = false;
+    let mut zero_len_skipped = false;
     let mut rr = match next {
         SendRequestResult::RecvResponse(r) => {
             if spec.body_due() {
-                return Err(v("a body is due but SendRequest advanced to RecvResponse"));
+                // a body of zero bytes (Content-Length: 0): a flow without a body state for it is as good as one whose body state
+                // is finished by the end signal
+                if !(spec.req_framing == ReqFraming::Cl && spec.body.is_empty()) {
+                    return Err(v("a body is due but SendRequest advanced to RecvResponse"));
+                }
+                if spec.goes_await() {
+                    return Ok(Outcome::NotCompared("zero_length_body_with_expect_has_no_body_state"));
+                }
+                zero_len_skipped = true;
             }
             r
         }
@@ -714,6 +725,8 @@ pub fn run_exchange(spec: &ExchangeSpec, start: Option<Flow<(), Prepare>>, strea
         } else {
             Some(req_wire.clone())
         }
+    } else if zero_len_skipped {
+        Some(vec![])
     } else {
         None
     };
